@@ -144,6 +144,7 @@ class Obligation:
         self.key = None              # identifies a violation for known_findings.json
         self.replay = None
         self.covers = {}
+        self.claim = None            # obligations with the same claim decide the same statement by different engines
 
     def as_json(self):
         d = {'name': self.name, 'engine': self.engine, 'what': self.what, 'status': self.status,
@@ -178,6 +179,14 @@ class Report:
 
     def finish(self):
         """Write evidence, print verdict lines, return the process exit code."""
+        # an engine that cannot handle a construct (inconclusive) is superseded by a twin obligation of the
+        # other engine that decided the same claim on the same source
+        for o in self.obls:
+            if o.status in ('inconclusive', 'pending') and o.claim:
+                twins = [t for t in self.obls if t is not o and t.claim == o.claim and t.status in ('held', 'violated', 'known')]
+                if twins:
+                    o.detail = f'superseded by {twins[0].name} ({twins[0].status}); this engine: {o.detail}'[:600]
+                    o.status = 'superseded'
         viol = [o for o in self.obls if o.status == 'violated']
         known = [o for o in self.obls if o.status == 'known']
         inc = [o for o in self.obls if o.status in ('inconclusive', 'pending')]
